@@ -21,6 +21,7 @@ import (
 	"github.com/lidofinance/dc4bc/storage"
 	"github.com/lidofinance/dc4bc/storage/file_storage"
 
+	"verifharness/oracle"
 	"verifharness/sched"
 	"verifharness/world"
 )
@@ -29,6 +30,44 @@ import (
 func init() {
 	Register("C16", "exploration", checkC16)
 	Workers["fswriter"] = fsWriterWorker
+	Workers["c16race"] = c16RaceWorker
+}
+
+// c16RaceWorker (run inside the -race build): writers and readers with separate handles in one
+// process, all size classes; the race detector watches the repository's board code.
+func c16RaceWorker(args []string) int {
+	if len(args) < 2 {
+		return 2
+	}
+	var seed uint64
+	fmt.Sscan(args[1], &seed)
+	path := filepath.Join(args[0], "board")
+	lock := filepath.Join(args[0], "lock")
+	var wg sync.WaitGroup
+	for wi := 0; wi < 8; wi++ {
+		wg.Add(1)
+		go func(wi int) {
+			defer wg.Done()
+			st, err := file_storage.NewFileStorage(path, lock)
+			if err != nil {
+				return
+			}
+			defer st.Close()
+			r := sched.Derive(seed, uint64(wi))
+			for k := 0; k < 12; k++ {
+				class := []string{"empty", "10B", "4KiB", "64KiB+1", "10B"}[r.Intn(5)]
+				_ = fsAppend(st, wi, fmt.Sprintf("r%d-%d", wi, k), dataForClass(class, r))
+				if k%3 == 0 {
+					_ = fsRead(st, wi, r.Intn(k+1))
+					_ = st.IgnoreMessages([]string{fmt.Sprint(r.Intn(5))}, true)
+					st.UnignoreMessages()
+				}
+			}
+		}(wi)
+	}
+	wg.Wait()
+	fmt.Fprintln(Out, "c16race done")
+	return 0
 }
 
 func monoNow() int64 {
@@ -322,7 +361,7 @@ func judgeLogStructure(c *Ctx, path, lock string, ops []fsOp, wit map[string]int
 }
 
 func checkC16(c *Ctx) {
-	c.Rule = "many short concurrent histories on the real FileStorage: W in {1,2,4,8,16} writer goroutines with separate handles plus readers, and W separate OS processes (verifd worker fswriter, CLOCK_MONOTONIC timestamps); message sizes empty, 10 B, 4 KiB, JSON line just below/above 64 KiB, 200 KiB, line just below 1 MiB; after quiescence a structural check through a fresh handle and the raw file (exactly-once, offset == position, earlier reads are runs of the final log, suffix reads, ignore lists by id and offset) and a porcupine linearizability check of the recorded history against the sequential log model. distinct = distinct (mode, writers, size class) configurations that produced a judged history"
+	c.Rule = "many short concurrent histories on the real FileStorage: W in {1,2,4,8,16} writer goroutines with separate handles plus readers, and W separate OS processes (verifd worker fswriter, CLOCK_MONOTONIC timestamps); message sizes empty, 10 B, 4 KiB, JSON line just below/above 64 KiB, 200 KiB, line just below 1 MiB; after quiescence a structural check through a fresh handle and the raw file (exactly-once, offset == position, earlier reads are runs of the final log, suffix reads, ignore lists by id and offset) and a porcupine linearizability check of the recorded history against the sequential log model. distinct = distinct observed interleavings (order of appends/reads by call time) over the (mode, writers, size class) configurations"
 	c.Assumptions = []string{"porcupine v1.3.0 as linearizability checker (60 s cap => inconclusive)", "timestamps from CLOCK_MONOTONIC, shared by all processes of the machine"}
 	type cfg struct {
 		mode    string
@@ -462,10 +501,42 @@ func checkC16(c *Ctx) {
 		default:
 			c.Add("histories_linearizable", 1)
 		}
-		c.Distinct(fmt.Sprintf("%s|w%d|%s", cf.mode, cf.writers, cf.class))
+		// distinct = distinct observed interleavings (order of operations by call time, per client and kind)
+		var sig strings.Builder
+		for _, o := range ops {
+			fmt.Fprintf(&sig, "%d%c", o.Client, o.Kind[0])
+		}
+		c.Distinct(fmt.Sprintf("%s|w%d|%s|%s", cf.mode, cf.writers, cf.class, oracleHash(sig.String())))
+		c.Add("configurations:"+fmt.Sprintf("%s|w%d|%s", cf.mode, cf.writers, cf.class), 1)
 		if cf.rep == 0 && (cf.writers == 4 || cf.class == "1MiB-") {
 			c.Sample(map[string]interface{}{"config": wit, "operations": len(ops), "linearizable": res == porcupine.Ok})
 		}
 		_ = os.Remove(path)
 	})
+	if c.Thorough() {
+		if bin := os.Getenv("VERIF_RACE_BIN"); bin != "" {
+			rdir := filepath.Join(base, "race")
+			_ = os.MkdirAll(rdir, 0o755)
+			okRuns := 0
+			for i := 0; i < 3; i++ {
+				cmd := exec.Command(bin, "worker", "c16race", rdir, fmt.Sprint(c.Seed*3+uint64(i)))
+				cmd.Env = append(os.Environ(), "GORACE=halt_on_error=0 log_path="+filepath.Join(rdir, "race"))
+				err := cmd.Run()
+				if ee, ok := err.(*exec.ExitError); err == nil || (ok && ee.ExitCode() == 66) {
+					okRuns++
+				}
+				_ = os.Remove(filepath.Join(rdir, "board"))
+			}
+			reports, total := parseRaceLogs(rdir)
+			c.Set("race_runs_completed", okRuns)
+			c.Set("race_reports_total", total)
+			for key, sample := range reports {
+				c.Violate("C16/data-race:"+key, "the Go race detector reports unsynchronised accesses in repository code: "+key, map[string]interface{}{"report": sample})
+			}
+		} else {
+			c.Note("race variant skipped: VERIF_RACE_BIN not set")
+		}
+	}
 }
+
+func oracleHash(s string) string { return oracle.Hash(s) }
